@@ -229,7 +229,21 @@ func judgePlan(c c12Case, S uint64, res c12Result) *ev.Failure {
 		if p.WriteExecOut != nil {
 			segs = append(segs, p.WriteOutSegmenter(), p.ReadOutSegmenter(c.OutInit))
 		}
-		segs = append(segs, p.BackprocessSegmenter())
+		bp := p.BackprocessSegmenter()
+		// the scheduler hands out jobs segment by segment of the back-processing segmenter: a segment of the
+		// stores or of the outputs to write that it does not contain is never given to a job (a gap)
+		for _, sg := range segs {
+			for idx := sg.FirstIndex(); idx <= sg.LastIndex(); idx++ {
+				r, b := sg.Range(idx), bp.Range(idx)
+				if r == nil {
+					continue // judged below
+				}
+				if b == nil || b.StartBlock > r.StartBlock || b.ExclusiveEndBlock < r.ExclusiveEndBlock {
+					return ev.Failf("plan/backprocess-gap", "segment %d = %s of a planned range is not covered by the back-processing segmenter (its segment %d is %s): plan %s", idx, r, idx, b, p)
+				}
+			}
+		}
+		segs = append(segs, bp)
 		for _, sg := range segs {
 			for idx := sg.FirstIndex(); idx <= sg.LastIndex(); idx++ {
 				r := sg.Range(idx)
